@@ -388,8 +388,11 @@ func c12Eval(c *runCtx, names, labels, titles []string) {
 		usedTick := map[int64]bool{}
 		tick := func() int64 {
 			if twoSided {
-				// timestamps in no particular relation to the clocks, and all different: among bugs
-				// equal in clock and timestamp the order is unspecified (sort.Sort is not stable)
+				// timestamps in no particular relation to the clocks; one population in two draws them
+				// from so few values that bugs tie in clock and timestamp, and the id decides
+				if pi%4 == 3 {
+					return 1_600_000_000 + int64(r.intn(6))
+				}
 				for {
 					u := 1_600_000_000 + int64(r.intn(4000))
 					if !usedTick[u] {
@@ -594,18 +597,18 @@ func c12Eval(c *runCtx, names, labels, titles []string) {
 				case query.OrderById:
 					inOrder = a.Id() <= b.Id()
 				case query.OrderByCreation:
-					inOrder = a.CreateLamportTime < b.CreateLamportTime || a.CreateLamportTime == b.CreateLamportTime && a.CreateUnixTime <= b.CreateUnixTime
+					inOrder = a.CreateLamportTime < b.CreateLamportTime || a.CreateLamportTime == b.CreateLamportTime && (a.CreateUnixTime < b.CreateUnixTime || a.CreateUnixTime == b.CreateUnixTime && a.Id() <= b.Id())
 				default:
-					inOrder = a.EditLamportTime < b.EditLamportTime || a.EditLamportTime == b.EditLamportTime && a.EditUnixTime <= b.EditUnixTime
+					inOrder = a.EditLamportTime < b.EditLamportTime || a.EditLamportTime == b.EditLamportTime && (a.EditUnixTime < b.EditUnixTime || a.EditUnixTime == b.EditUnixTime && a.Id() <= b.Id())
 				}
 				if q.OrderDirection == query.OrderDescending {
 					switch q.OrderBy {
 					case query.OrderById:
 						inOrder = a.Id() >= b.Id()
 					case query.OrderByCreation:
-						inOrder = a.CreateLamportTime > b.CreateLamportTime || a.CreateLamportTime == b.CreateLamportTime && a.CreateUnixTime >= b.CreateUnixTime
+						inOrder = a.CreateLamportTime > b.CreateLamportTime || a.CreateLamportTime == b.CreateLamportTime && (a.CreateUnixTime > b.CreateUnixTime || a.CreateUnixTime == b.CreateUnixTime && a.Id() >= b.Id())
 					default:
-						inOrder = a.EditLamportTime > b.EditLamportTime || a.EditLamportTime == b.EditLamportTime && a.EditUnixTime >= b.EditUnixTime
+						inOrder = a.EditLamportTime > b.EditLamportTime || a.EditLamportTime == b.EditLamportTime && (a.EditUnixTime > b.EditUnixTime || a.EditUnixTime == b.EditUnixTime && a.Id() >= b.Id())
 					}
 					if a.EditLamportTime == b.EditLamportTime || a.CreateLamportTime == b.CreateLamportTime {
 						c.count("eval-adjacent-clock-ties")
@@ -619,9 +622,15 @@ func c12Eval(c *runCtx, names, labels, titles []string) {
 				}
 				if q.OrderBy == query.OrderByCreation && a.CreateLamportTime == b.CreateLamportTime {
 					c.count("eval-creation-order-decided-by-timestamp")
+					if a.CreateUnixTime == b.CreateUnixTime {
+						c.count("eval-order-decided-by-id")
+					}
+				}
+				if q.OrderBy == query.OrderByEdit && a.EditLamportTime == b.EditLamportTime && a.EditUnixTime == b.EditUnixTime {
+					c.count("eval-order-decided-by-id")
 				}
 				if !inOrder {
-					c.violation(c.nCases, "C12/unsorted", fmt.Sprintf("result of %q is not sorted by the requested key (clock, then timestamp) and direction", s), nil)
+					c.violation(c.nCases, "C12/unsorted", fmt.Sprintf("result of %q is not sorted by the requested key (clock, then timestamp, then id) and direction", s), nil)
 					break
 				}
 			}
